@@ -202,9 +202,10 @@ func (p *Program) instrWrites(in ssa.Instruction, includeFresh bool, out map[str
 		}
 		name := p.libCallName(c)
 		switch name {
-		case "(*bytes.Buffer).Write", "(*bytes.Buffer).WriteString", "(*bytes.Buffer).WriteByte", "(*bytes.Buffer).WriteRune":
+		case "(*bytes.Buffer).Write", "(*bytes.Buffer).WriteString", "(*bytes.Buffer).WriteByte", "(*bytes.Buffer).WriteRune", "(*bytes.Buffer).Reset", "(*bytes.Buffer).Truncate":
 			out["BUF!len"] = true
 			out["BUF!data"] = true
+			out[S.ElemKey(types.Typ[types.Uint8]).Name] = true
 		case "(*bytes.Buffer).Bytes":
 			if includeFresh {
 				out[S.ElemKey(types.Typ[types.Uint8]).Name] = true
@@ -233,6 +234,10 @@ func (p *Program) instrWrites(in ssa.Instruction, includeFresh bool, out map[str
 	case *ssa.Alloc:
 		if includeFresh {
 			p.typeKeys(i.Type(), out)
+			if types.TypeString(i.Type().Underlying().(*types.Pointer).Elem(), nil) == "bytes.Buffer" {
+				out["BUF!len"] = true
+				out["BUF!ref"] = true
+			}
 		}
 	case *ssa.Convert:
 		if includeFresh {
